@@ -45,7 +45,14 @@ def run_check(prop: str, tier: str, root: str) -> int:
             pass
         print(f"ANALYSIS-ERROR property={prop}: {e}")
         return 2
-    except Exception:  # a traceback must never look like a violation
+    except Exception as e:  # a traceback must never look like a violation
+        try:
+            if ck is not None and any(o.status == "violated" for o in ck.obs):
+                print(f"ANALYSIS-INCOMPLETE property={prop}: {type(e).__name__}: {e} (violations found before that point are reported)")
+                ck.not_decided.append(f"analysis incomplete on this tree: {type(e).__name__}: {e}")
+                return ck.finish()
+        except Exception:
+            pass
         print(f"ANALYSIS-ERROR property={prop}: internal error")
         traceback.print_exc()
         return 2
